@@ -3,9 +3,11 @@ CHECK = {
     "harness": "h-c14",
     "translators": ["c14_consts"],
     "level": "proof",
-    "rule": "one evaluation = one request line (a query grouping, a multi_open run, a multi_prepare run with its verdict, "
-            "the intermediate scalars of a multi_prepare run); non-trivial when the query list has more than one query / "
-            "always for prove, verify and vtrace; distinctness by hash of the request line",
+    "rule": "one evaluation = one request line (a query grouping, a multi_open run, the intermediate polynomials of a "
+            "multi_open run, a multi_prepare run with its verdict, the intermediate scalars of a multi_prepare run; runs "
+            "inside an explicit rayon pool carry a trailing pool=<t> word that the model ignores); non-trivial when the "
+            "query list has more than one query / always for prove, otrace, verify and vtrace; distinctness by hash of the "
+            "request line",
     "explanation": "Lean theorems over the executable model of construct_intermediate_sets / multi_open / multi_prepare "
                    "(mirrored step by step: x1-fold of polynomials, commitments and evaluation sets, kate_division fold, "
                    "lagrange_interpolate, f_eval fold in x2, x4-fold, as_terms of chopped commitments, the deferred dual MSM): "
@@ -15,38 +17,66 @@ CHECK = {
                    "with one-piece AND chopped commitment references (multiopen_complete_refs); the algebraic core of soundness "
                    "step by step with exact counts of exceptional challenges (a wrong claim survives the x1-fold for <= #polys-1 "
                    "values, then no polynomial f exists for all but <= #sets-1 values of x2, a wrong f is caught at x3 for all "
-                   "but <= nMax-1+#points values, a wrong value at x4 for all but <= #sets values; pi_unique). "
+                   "but <= nMax-1+#points values, a wrong value at x4 for all but <= #sets values; pi_unique); "
+                   "the four steps COMPOSED over the model's own folds (multiopen_sound_algebraic: one wrong claimed evaluation => "
+                   "for x1, x2, x3, x4 outside explicit nested sets of those sizes, whatever polynomial f is behind f_com and "
+                   "whatever q evaluations are in the proof, no polynomial w behind pi satisfies the verifier's final identity "
+                   "(X-x3)w = P-v; quantifiers in protocol order; final_identity_complete for the honest side); the prover's "
+                   "intermediate values against the verifier's, equality by equality, for every query-set shape "
+                   "(multi_open_matches_verifier: q_polys on the point sets = folded claims, q_polys(x3) = proof evaluations, "
+                   "f_poly(x3) = f_eval, final_poly(x3) = v on both sides, pi_poly = (final_poly-v)/(X-x3)); the deferred pairing check "
+                   "of the model's dual MSM is that final identity evaluated at the secret s - for the very P and v of the composed "
+                   "theorem: the folded commitments commit to the folded polynomials, the verifier's f_eval and v are fEvalOf / vOf "
+                   "(composed_v_is_verifier_v, folded_commitments_commit_to_folded_polys, model_check_is_final_identity_at_s); "
+                   "eval_polynomial as written (chunks of ceil(n/t) zipped with t slots) equals Horner for every pool size t >= 1 "
+                   "(eval_polynomial_thread_independent, mirror evalPolyThreads compared with the real function inside pools of "
+                   "1..16 threads on lengths 0..128, evalt lines). "
                    "The model is tied to the real code by running both on the same query sets with a known setup secret: grouping "
                    "result (hook), every proof element, the verifier's deferred MSM term by term, the verdict, and - through an "
                    "add-only trace hook inside multi_prepare - powers_x1, q_eval_sets, every r_eval in fold order, f_eval and v, "
-                   "for honest and corrupted inputs. The correspondence is deliberately tight on the ORDER of MSM terms and of "
-                   "the f_eval fold: a re-ordering of terms that keeps the sum would be reported although it is benign.",
+                   "for honest and corrupted inputs; through an add-only trace hook inside multi_open (repo commit b11794c) the "
+                   "prover's q_polys per set, f_poly, final_poly, v and pi_poly (length, lowest and highest coefficient, value at a "
+                   "test point) against the model prover on every proved case. Thread-count independence: the honest open -> "
+                   "verify round trip with prove / otrace / verify / vtrace lines is repeated inside explicit rayon pools "
+                   "{1,2,3,5,6} (quick) / {1,2,3,5,6,7,12,16} (thorough, search) on polynomials of 4..128 coefficients and point "
+                   "sets of 1,2,3,5 points, so that a chunking error of the parallel helpers (eval_polynomial) that only shows "
+                   "when the pool size does not divide the length is an honest-rejected oracle failure (seed C14-3) and a difference on the evalt lines. The correspondence is deliberately tight on the ORDER of MSM terms and of "
+                   "the f_eval fold: a re-ordering of terms that keeps the sum would be reported although it is benign; likewise the "
+                   "otrace lines compare the LENGTH of the prover's intermediate coefficient vectors (padding to 2^k) and its "
+                   "internal v, so a rewrite that changes only those (and not the proof) is reported as a model difference.",
     "technique": "executable Lean model + kernel-checked theorems (Mathlib polynomials for the algebra, root counting for the "
                  "exceptional-challenge bounds); differential run against the real multi_open / multi_prepare with a toxic-waste "
                  "setup so that every group element is predicted through its discrete logarithm; add-only hooks for the grouping "
-                 "and for the verifier's intermediate scalars; statement-level oracles (honest accepted, forgery rejected, "
+                 "and for the verifier's intermediate scalars and the prover's intermediate polynomials; explicit rayon pools of "
+                 "several sizes around the real prover and verifier; statement-level oracles (honest accepted, forgery rejected, "
                  "repeated pair refused with Err(DuplicatedQuery), no spurious duplicate error, no panic)",
     "trusted_base": [
         "blst group and pairing arithmetic (commit = MSM, final pairing check) is modelled on discrete logarithms: "
         "e(L,[s]_2) = e(R,[1]_2) iff s*log L = log R (non-degenerate pairing on a group of prime order)",
         "the Fiat-Shamir challenges x1..x4 are recorded from the real transcript and given to the model (hash not modelled)",
-        "the trace hook (proofs/src/poly/kzg/verif_hooks.rs, feature verif-hooks) only copies values out of multi_prepare",
+        "the trace hooks (proofs/src/poly/kzg/verif_hooks.rs, feature verif-hooks) only copy values out of multi_prepare and "
+        "multi_open",
+        "rayon::ThreadPool::install makes rayon::current_num_threads() the pool size for everything the closure calls",
     ],
     "assumptions": [
         "binding of the commitment scheme (q-SDH / algebraic group model: the prover knows a polynomial behind f_com and pi) is "
-        "not proved; the soundness theorems are the four algebraic steps with their exceptional-challenge counts, stated "
-        "separately (their composition into one probability bound, and the random-oracle argument for x1..x4, are not formalised); "
+        "not proved: it is what lifts the pairing check at the secret s to the polynomial identity (X-x3)w = P-v of "
+        "multiopen_sound_algebraic; the composed theorem gives explicit nested bad-challenge sets with their sizes, the "
+        "probabilistic wrapping (union bound over |F|, random-oracle argument for x1..x4) is not formalised; "
         "the correspondence shows rejection on every corrupted input that was run",
     ],
     "level_text": "Kernel-checked Lean theorems about an executable model of the KZG multi-opening, mirrored step by step "
                   "(query grouping and duplicate refusal for all query lists; completeness for every query-set shape incl. "
-                  "chopped commitments; soundness core with exact exceptional-challenge counts for x1, x2, x3, x4 over any "
-                  "field), with the model checked against the real multi_open / multi_prepare on every run: proof elements, "
-                  "deferred MSM term by term, verdicts and the verifier's intermediate scalars (q_eval_sets, r_evals, f_eval, v) "
+                  "chopped commitments, with the prover's intermediate values equal to the verifier's one by one; soundness core "
+                  "with exact exceptional-challenge counts for x1, x2, x3, x4 over any field, composed into one algebraic "
+                  "statement with explicit nested bad-challenge sets), with the model checked against the real multi_open / "
+                  "multi_prepare on every run: proof elements, the prover's intermediate polynomials (q_polys, f_poly, final_poly, "
+                  "v, pi_poly), deferred MSM term by term, verdicts and the verifier's intermediate scalars (q_eval_sets, r_evals, "
+                  "f_eval, v), also inside explicit rayon pools of 1,2,3,5,6(,7,12,16) threads, "
                   "on exhaustive assignment patterns of <= 4 polynomials x <= 3 points, structured and random sets up to 12 x 5, "
                   "all single-element corruptions, repeated queries with identical / different evaluations on both sides",
     "level_note": "Trusted: Lean kernel, harness, driver and the observe-only hooks; pairing/group arithmetic modelled on "
-                  "discrete logarithms; cryptographic binding (SDH/AGM) and the composition of the four soundness steps into "
-                  "one bound assumed, not proved",
+                  "discrete logarithms; cryptographic binding (SDH/AGM: commitments as polynomials) assumed and named, the "
+                  "probability bound over the challenges (union bound, random oracle) not formalised",
     "timeout": {"quick": 900, "thorough": 3000, "search": 900},
 }
